@@ -151,11 +151,11 @@ var plans = map[string]*plan{
 	},
 	"C10": {
 		Level:          "exploration",
-		Rule:           "sequential histories (12..36 steps, synctest) over client ids {s, s1, t} (one a prefix of another) of CONNECT(CleanSession 0/1) / SUBSCRIBE / UNSUBSCRIBE / DISCONNECT / abrupt close, at most one live connection per id. Model: id -> subscriptions kept by CleanSession=0 connections. CONNACK SessionPresent must equal the model; after the new connection answered one PINGREQ, 7 probe publishes from another client must reach exactly the model's filters at the stored granted QoS (C01 oracle) on every live connection, after every connect and every end. distinct = (clean, state kept, number of restored subscriptions).",
-		Quick:          []batchSpec{{Test: "TestC10", N: 8, Timeout: 15 * m}},
-		Thorough:       []batchSpec{{Test: "TestC10", N: 16, Timeout: 60 * m}},
+		Rule:           "sequential histories (12..36 steps, synctest) over client ids {s, s1, t} (one a prefix of another) of CONNECT(CleanSession 0/1) / SUBSCRIBE / UNSUBSCRIBE / DISCONNECT / abrupt close, at most one live connection per id. Model: id -> subscriptions kept by CleanSession=0 connections. CONNACK SessionPresent must equal the model; after the new connection answered one PINGREQ, 7 probe publishes from another client must reach exactly the model's filters at the stored granted QoS (C01 oracle) on every live connection, after every connect and every end. TestC10Big (real time): sessions of 1000..40000 filters are resumed and 64 publications are written the instant the PINGRESP to the resumed connection's first request has been read; each must arrive exactly once at min(1, granted QoS). distinct = (clean, state kept, number of restored subscriptions).",
+		Quick:          []batchSpec{{Test: "TestC10", N: 8, Timeout: 15 * m}, {Test: "TestC10Big", N: 4, Timeout: 15 * m}},
+		Thorough:       []batchSpec{{Test: "TestC10", N: 16, Timeout: 60 * m}, {Test: "TestC10Big", N: 12, Timeout: 60 * m}},
 		EvalStats:      []string{"c10.connects"},
-		Floors:         map[string]int64{"c10.histories": 1500, "c10.connects": 8000, "c10.probes": 100000, "classes": 8},
+		Floors:         map[string]int64{"c10.histories": 1500, "c10.connects": 8000, "c10.probes": 100000, "c10.big_sessions": 10, "classes": 8},
 		FloorsThorough: map[string]int64{"c10.histories": 45000, "classes": 8},
 		Assumptions:    []string{"quiescence by synctest.Wait()", "takeover of a live client id is outside the statement and not generated"},
 	},
